@@ -8,6 +8,7 @@ import (
 	"os"
 
 	"verif/checks/c01"
+	"verif/checks/c02"
 	"verif/checks/c03"
 	"verif/checks/c05"
 	"verif/checks/c06"
@@ -27,6 +28,7 @@ type check struct {
 
 var checks = map[string]check{
 	"C01": {"exploration", c01.Run, c01.Replay},
+	"C02": {"exploration", c02.Run, c02.Replay},
 	"C03": {"exploration", c03.Run, c03.Replay},
 	"C05": {"exploration", c05.Run, c05.Replay},
 	"C06": {"model_checking", c06.Run, c06.Replay},
